@@ -6,7 +6,6 @@ import (
 	"fmt"
 	"math"
 	"strings"
-	"time"
 
 	"github.com/bits-and-blooms/bloom/v3"
 	bs "github.com/danthegoodman1/bloomsearch"
@@ -199,7 +198,7 @@ func runC26(rc *RunCtx, i int) {
 	}
 	merged := false
 	if blocksWanted > 1 && (r.Bool() || volumeCase || twoEngines) {
-		ctx, cancel := context.WithTimeout(context.Background(), 120*time.Second)
+		ctx, cancel := context.WithTimeout(context.Background(), core.Patience)
 		_, err := w.Eng[mergeEngine].Merge(ctx)
 		cancel()
 		if err != nil {
